@@ -124,6 +124,7 @@ op for every member on every sweep).  `@X` inside the declaration of `X` becomes
 def menagerieDecls : List (String × Methods × String) := [
   ("FV",        { folder := .value },   "struct{A:int;S:string}"),
   ("FP",        { folder := .pointer }, "struct{A:int}"),
+  ("FPN",       { folder := .pointer }, "struct{A:int}"),   -- nil receiver emits a non-null value
   ("FS",        { folder := .value },   "int"),
   ("FInts",     { folder := .value },   "[]int"),
   ("FMap",      { folder := .value },   "map[string]int"),
@@ -628,6 +629,8 @@ def customEvents : String → GoVal → Option (List XEv)
   | "FP", .ptr (.struct [.int a]) =>
     some [.ev (.objStart (-1) BT.any), .ev (.key (strBytes "pa")), .ev (.num .i64 a), .ev (.key (strBytes "po")),
           .ev (.objStart 1 BT.any), .ev (.key (strBytes "x")), .ev (.bool true), .ev .objEnd, .ev .objEnd]
+  | "FPN", .nilPtr => some [.ev (.str (strBytes "unlimited"))]
+  | "FPN", .ptr (.struct [.int a]) => some [.ev (.num .int a)]
   | "UF", .nilPtr => some [.ev .null]
   | "UF", .ptr (.struct [.int d]) => some [.ev (.str (strBytes "uf" ++ decBytes d))]
   | "UO", .nilPtr => some [.ev .null]
